@@ -30,7 +30,7 @@ def parseWeekday : String → Option Weekday
   | "saturday" => some .saturday | _ => none
 
 def Sched.Outcome.tag : Sched.Outcome → String
-  | .ok => "ok" | .valueError => "ValueError" | .keyError => "KeyError"
+  | .ok => "ok" | .valueError => "ValueError" | .keyError => "KeyError" | .indexError => "IndexError"
 
 def parseEdit (s : String) : Option Edit :=
   match s.splitOn "," with
@@ -48,10 +48,8 @@ def Entry.show (e : Entry) : String :=
 def scheduleOps : List String → Option String
   | ["s.set", day, st, a, b] => do
     let day ← parseBits day; let st ← parseState st; let a ← parseTimeArg a; let b ← parseTimeArg b
-    if day.length = 48 then
-      let r := setState day st a b
-      pure s!"{showBits r.1} {r.2.tag}"
-    else none
+    let r := setState day st a b
+    pure s!"{showBits r.1} {r.2.tag}"
   | ["s.split", b] => do
     let b ← b.toNat?
     if b < 256 then pure (showBits (splitByte b.toUInt8)) else none
@@ -80,6 +78,19 @@ def scheduleOps : List String → Option String
         let r := acc.1.edit e; (r.1, acc.2 ++ [r.2.tag])) (dev, [])
       let payload := match dev.commit idx with | some p => showHex p | none => "KeyError"
       pure (String.intercalate "," ("edits" :: outs) ++ " " ++ payload)
+  -- event histories with a write queue: r:<hex> | e:<edit> | c:<idx> | d
+  | "s.sys" :: evs => do
+    let evs ← evs.mapM fun t =>
+      if t = "d" then some Ev.drain
+      else match t.splitOn ":" with
+        | ["r", h] => (parseHex h).map Ev.receive
+        | ["c", i] => i.toNat?.map Ev.commit
+        | "e" :: rest => (parseEdit (String.intercalate ":" rest)).map Ev.edit
+        | _ => none
+    let outs := (Sys.run ⟨Device.init, []⟩ evs).2
+    pure (String.intercalate " " (outs.map fun o => match o with
+      | .received => "received" | .decodeError => "err" | .edited o => o.tag | .queued => "queued"
+      | .keyError => "KeyError" | .tx p => showHex p | .idle => "idle"))
   -- judges (Spec/C18.lean) applied to what the implementation did
   | ["s.judgeset", before, valid, on, i, j, raised, after] => do
     let before ← parseBits before; let after ← parseBits after
@@ -93,6 +104,17 @@ def scheduleOps : List String → Option String
     let rows ← (table.splitOn "/").mapM parseBits
     let payload ← parseHex payload
     pure (if C18.specCommit idx sw par (fun d i => (rows.getD d []).getD i false) payload then "pass" else "fail")
+  -- s.judgeslots <idx> <sw> <par> <received bitmap hex> <payload hex> [day,valid,on,i,j ...]: the
+  -- statement's slot-level expectation (theorem C18.holds_commit_slots)
+  | "s.judgeslots" :: idx :: sw :: par :: bm :: payload :: edits => do
+    let idx ← idx.toNat?; let sw ← sw.toNat?; let par ← par.toNat?
+    let bm ← parseHex bm; let payload ← parseHex payload
+    let edits ← edits.mapM fun t => match (t.splitOn ",").mapM String.toNat? with
+      | some [d, v, o, i, j] => if d < 7 ∧ i < 48 ∧ j < 48 then some (C18.SlotEdit.mk d (v == 1) (o == 1) i j) else none
+      | _ => none
+    if bm.length = 42 then
+      pure (if C18.specCommit idx sw par (C18.expectedSlot (C18.slotBit bm) edits) payload then "pass" else "fail")
+    else none
   | _ => none
 
 end PlumVerif
